@@ -17,7 +17,7 @@ dst.mkdir(parents=True, exist_ok=True)
 shutil.copy(src / "patch.diff", dst / "patch.diff")
 shutil.copy(src / "demo.py", dst / "demo.py")
 meta_out = {
-    "property": pid,
+    "property": pid[:3],
     "summary": meta.get("summary"),
     "needs_to_manifest": meta.get("needs"),
     "files": meta.get("files"),
